@@ -17,16 +17,19 @@ from .rules_t import element_family, own_init, str_elts, module_const
 def r1(ctx, res):
     f = ctx.func("custom_repr_args")
     s = f.params[0].name
-    ok_sig = False
-    pl = None
-    for node, b in find(f"MV_p = list(inspect.signature(type({s}).__init__).parameters.values())[1:]", f):
-        ok_sig = True
-        pl = name_of(b["MV_p"])
-    res.check(ok_sig, f, "parameters = list(inspect.signature(type(self).__init__).parameters.values())[1:]",
-              reason="the constructor's own signature (minus self) drives the repr")
-    loops = [n for n in walk_own(f.body) if isinstance(n, ast.For) and pl and norm(n.iter) == pl]
+    from .norm import view
+    keepv = set()
+    for node, b in find(f"MV_v = overrides.get(MV_p.name, getattr({s}, MV_p.name, None))", f):
+        keepv.add(name_of(b["MV_v"]))
+    for node, b in find(f"MV_v = getattr({s}, MV_p.name, None)", f):
+        keepv.add(name_of(b["MV_v"]))
+    vb = view(f, ctx.prog, keep=tuple(sorted(keepv))).body
+    sig_pats = [f"list(inspect.signature(type({s}).__init__).parameters.values())[1:]",
+                f"list(inspect.signature({s}.__class__.__init__).parameters.values())[1:]"]
+    loops = [n for n in walk_own(vb) if isinstance(n, ast.For) and any(has(sp, n.iter) and norm(n.iter) == norm(first(sp, n.iter)[0]) for sp in sig_pats)]
+    res.judge(True if len(loops) == 1 else None, f, "for param in list(inspect.signature(type(self).__init__).parameters.values())[1:]",
+              reason="the constructor's own signature (minus self) drives the repr; every parameter is visited")
     if len(loops) != 1:
-        res.violation(f, "for param in parameters", reason="every constructor parameter is visited")
         return
     lp = loops[0]
     p = norm(lp.target)
@@ -194,11 +197,41 @@ def n1(ctx, res):
               reason="labels only contain identifier characters once ' ' and '-' are replaced")
     # first character repair, blank, reserved suffix last
     res.check(has("if not MV_n:\n    return 'blank'", pan), pan, "empty -> 'blank'", reason="the empty name maps to an identifier")
-    fc = None
-    for node, b in find("MV_f = set(string.ascii_letters) | {'_'}", pan):
-        fc = name_of(b["MV_f"])
-    ok_first = fc is not None and any(True for _ in find(f"if MV_n[0] not in {fc}:\n    MV_n = f'_{{MV_n}}'", pan))
-    res.check(ok_first, pan, "if name[0] not in ascii_letters + '_': name = '_' + name", reason="the first character is an identifier start")
+    def charset(e, depth=0):
+        """Statically evaluate a set-of-characters expression built from constants."""
+        if depth > 6:
+            return None
+        if isinstance(e, ast.Constant) and isinstance(e.value, str):
+            return set(e.value)
+        if isinstance(e, (ast.Set, ast.Tuple, ast.List)) and all(isinstance(x, ast.Constant) and isinstance(x.value, str) for x in e.elts):
+            return set(x.value for x in e.elts)
+        if isinstance(e, ast.Call) and dotted(e.func) in ("set", "frozenset", "tuple", "list") and len(e.args) == 1:
+            return charset(e.args[0], depth + 1)
+        if isinstance(e, ast.BinOp) and isinstance(e.op, (ast.BitOr, ast.Add)):
+            a, b_ = charset(e.left, depth + 1), charset(e.right, depth + 1)
+            return None if a is None or b_ is None else a | b_
+        d = dotted(e)
+        if d and d.startswith("string.") and hasattr(string, d.split(".")[1]):
+            return set(getattr(string, d.split(".")[1]))
+        if isinstance(e, ast.Name):
+            r = ctx.prog.resolve_in(pan, e.id)
+            if r and r[0] == "const":
+                return charset(r[2], depth + 1)
+            if r and r[0] == "local":
+                vals = [b[1] for b in ctx.inf.bindings(pan).get(e.id, []) if b[0] == "assign"]
+                if len(vals) == 1:
+                    return charset(vals[0], depth + 1)
+        return None
+    ok_first = None
+    for node, b in find("if MV_n[0] not in MV_f:\n    MV_n = f'_{MV_n}'", pan):
+        cs = charset(b["MV_f"])
+        if cs is not None:
+            ok_first = all(("" + c).isidentifier() for c in cs) and bool(cs)
+    for node, b in find("if not MV_n[0] in MV_f:\n    MV_n = '_' + MV_n", pan):
+        cs = charset(b["MV_f"])
+        if cs is not None:
+            ok_first = all(c.isidentifier() for c in cs) and bool(cs)
+    res.judge(ok_first, pan, "if name[0] not in ascii_letters + '_': name = '_' + name", reason="the first character is an identifier start")
     last_if = [st for st in pan.body if isinstance(st, ast.If)]
     ok_last = bool(last_if) and has("MV_n in RESERVED_PROPERTIES", last_if[-1].test) and \
         any(True for _ in find("MV_n = f'{MV_n}_'", last_if[-1].body)) and isinstance(pan.body[-1], ast.Return) and \
@@ -336,9 +369,12 @@ def a1(ctx, res):
     om = ctx.cls("ObjectMeta").props["annotation"]["get"]
     res.check(has("return cls.__name__", om), om, "return cls.__name__", reason="a model class is annotated by its own name")
     arr = ctx.cls("Array").props["annotation"]["get"]
-    ok = has("return 'List'", arr) and has("return f'List[{self.item_annotations[0]}]'", arr) and \
-        has("return f\"List[Union[{', '.join(self.item_annotations)}]]\"", arr)
-    res.check(ok, arr, "List | List[T] | List[Union[...]]", reason="array annotation is built from the item annotations")
+    from .paths import ret_expr
+    from .norm import view
+    rets = {norm(ret_expr(p)) for p in enumerate_paths(view(arr, ctx.prog).body) if p.exit == "return" and ret_expr(p) is not None}
+    want = {"'List'", "f'List[{self.item_annotations[0]}]'", "f'List[Union[{', '.join(self.item_annotations)}]]'"}
+    ok = True if rets == want else (None if not any("List" in r for r in rets) else (False if rets - want and all("List" in r for r in rets) else None))
+    res.judge(ok, arr, "List | List[T] | List[Union[...]]", reason="array annotation is built from the item annotations")
 
 
 # ---------------------------------------------------------------------- A2
